@@ -3,8 +3,8 @@ package main
 // Facts about package-level state (sub-command "gofacts"), for property C17: every statement that
 // writes a package-level variable outside initialisation, every method call whose receiver is rooted
 // at a package-level variable (with the method name, so that Lean can check it against a list of
-// read-only methods), and every place where the address of (an element of) a package-level variable
-// is taken.
+// read-only methods), every place where the address of (an element of) a package-level variable
+// is taken, and every argument rooted at a package-level variable that is handed to code outside the module.
 //
 // The extractor works on TYPE-CHECKED syntax (go/parser + go/types, standard library only):
 //
@@ -13,11 +13,27 @@ package main
 //   - a target is "package-level" iff the ROOT of its selector / index / slice / star / paren / & /
 //     conversion / type-assertion chain is a *types.Var whose parent scope is a package scope — of the
 //     package itself, of another package of the module (`internal.Tab[3] = …`), or of any other package;
-//   - the root of a call is: for a call of an ACCESSOR (a function or method each of whose return
-//     statements returns one expression rooted at a package-level variable; computed to a fixpoint, over
-//     all packages of the module) that variable; for any other method call the root of the receiver
-//     (a method may return a pointer into its receiver); for `append(x, …)` the root of x; otherwise
-//     none.  A call whose result type cannot alias anything (numbers, strings, structs of such) has no root;
+//   - ORIGINS, interprocedurally, for the functions and methods the module has the Go body of: the
+//     origins of an expression are the package-level variables and the parameters / receivers it may
+//     point into.  A local variable carries the origins of everything assigned to it, or stored through
+//     it (`x.f = e`, composite literals), anywhere in its function (flow-insensitive).  A parameter or
+//     receiver stands, context-INsensitively, for every package-level variable that SOME call site of the
+//     module (initialisation code included; calls through an interface bind every method of the module
+//     implementing it; function literals called on the spot too) passes for it, transitively through
+//     further calls (`packageLevelParamAliases`).  Each result of such a function is summarised as
+//     package-level variables and own parameters (from ALL its return statements; "accessors") and
+//     instantiated with the actual arguments at each call site; multi-result calls are followed;
+//   - the result of a method the module has no body of (other module, interface, assembly) is rooted at
+//     its receiver (a method may return a pointer into its receiver) — NOT at its other arguments;
+//     `append(x, …)` is rooted at x; a call whose result type cannot alias anything (numbers, strings,
+//     structs of such) has no root;
+//   - so a write / mutating builtin / method call in a helper, through a parameter for which some caller
+//     passes (something rooted at) a package-level variable, is reported at its position in the helper
+//     under the name of that variable (unless the helper is init-only);
+//   - arguments (receivers apart: those are method-call facts) rooted at a package-level variable and of a
+//     type that can share memory, handed to code the module has no body of, are listed with the callee
+//     and the argument index (`packageLevelArgsToForeign`; "(dynamic)" = call of a function value), to be
+//     checked against an allow-list of callees that do not write that argument;
 //   - write forms: `=` and every `op=`, `++`/`--`, `for k, v = range` targets, the destination of the
 //     builtins copy / clear / delete / append;
 //   - method calls: every method selection x.M (called or taken as a method value) and every method
@@ -31,18 +47,20 @@ package main
 //   - the packages are type-checked once per build configuration (amd64, arm64, neither; plus one per
 //     purego-like tag mentioned in a //go:build line) and the facts are united; a non-test Go file that
 //     is in no configuration (and is not under one of the never-set tags verif / tablegen / ignore) stops
-//     the translator.
+//     the translator;
+//   - assigning to / taking the address of storage that lies INSIDE a local variable or parameter (the
+//     variable, a field of a struct value, an element of an array value) is not a fact.
 //
-//   - local aliases, flow-insensitively: a local variable (of a type that can share memory) some
-//     assignment, definition or range clause of which takes its value from an expression rooted at a
-//     package-level variable is itself rooted there (`p := one; p.SetInt64(0)`, `t := table[:]; t[0] = 1`);
-//     assigning to / taking the address of the local variable ITSELF is not a fact.
-//
-// NOT covered (documented in Props/C17.lean as well): a pointer, slice or map obtained from a
-// package-level variable and passed to a callee (as argument or receiver-less parameter) or stored in a
-// struct field / returned through a multi-result function and written there (`f(table[:])`,
-// `x.Add(one, one)` is fine only because math/big does not write its operands) — address-taking and
-// array slicing are at least LISTED (packageLevelAddrTaken); unsafe; reflection; assembly.
+// NOT covered (documented in Props/C17.lean as well): pointers stored in a structure that is reached
+// through a parameter and read back by the CALLER or by a later call (`p.f = &table` inside a callee;
+// heap cells are not modelled, only variables); pointers returned by foreign code from a non-receiver
+// argument (`x := bytes.TrimLeft(pkgSlice, …); x[0] = 1`); parameters of functions called only through
+// function values (the call is listed as "(dynamic)"); closures capturing an alias are walked, but a
+// literal's own parameters are bound only when it is called on the spot; goroutine / defer calls are
+// ordinary calls; unsafe; reflection; what assembly routines do with their arguments (covered by the
+// listings, C17 2b).  Context-insensitivity makes the analysis over-approximate: a helper that writes a
+// parameter and is called with a package-level variable from initialisation AND with locals at run time
+// is reported.
 //
 // Before emitting, the extractor is run on a built-in fixture (testdata/gofacts_fixture, embedded) that
 // plants one instance of every form above and of every benign look-alike; the translator refuses to
@@ -255,38 +273,65 @@ func (l *gfLoader) load(rel string) *gfPkg {
 // facts
 
 type gfFact struct {
-	kind  string // write | call | fcall | addr
+	kind  string // write | call | fcall | addr | farg
 	where string // pkg/file.go:line
 	v     string // the variable: NAME in its own package, otherwise PKG.NAME
-	third string // write, addr: the enclosing function; call, fcall: the method name
-	qual  string // call, fcall: the method with its receiver type, e.g. (*math/big.Int).SetInt64
+	third string // write, addr: the enclosing function; call, fcall: the method name; farg: the argument index
+	qual  string // call, fcall: the method with its receiver type, e.g. (*math/big.Int).SetInt64; farg: the callee
 	recv  string // call, fcall: pointer | value | interface — the kind of the method's receiver
 }
 
 type gfFacts struct {
-	facts     map[gfFact]bool
-	vars      map[string]bool // pkg.name of every package-level variable of the analysed packages
-	initOnly  map[string]bool // pkg.func
-	accessors map[string]bool // pkg.func → var, as "pkg.func\x00var"
-	seenCalls map[string]bool // position of every method call examined in non-initialisation code
-	seenAsg   map[string]bool // … assignment / inc-dec / range-assign statement
-	seenLits  map[string]bool // … function literal
-	seenFuncs map[string]bool // … function declaration walked as non-initialisation code
-	configs   []string
+	facts        map[gfFact]bool
+	vars         map[string]bool // pkg.name of every package-level variable of the analysed packages
+	initOnly     map[string]bool // pkg.func
+	accessors    map[string]bool // pkg.func → var, as "pkg.func\x00var"
+	bindings     map[string]bool // "pkg\x00func\x00param\x00var": a call site passes var (or something rooted at it) for param
+	seenArgCalls map[string]bool // position of every call examined for arguments handed to foreign code
+	seenCalls    map[string]bool // position of every method call examined in non-initialisation code
+	seenAsg      map[string]bool // … assignment / inc-dec / range-assign statement
+	seenLits     map[string]bool // … function literal
+	seenFuncs    map[string]bool // … function declaration walked as non-initialisation code
+	configs      []string
 }
 
 func newGfFacts() *gfFacts {
-	return &gfFacts{facts: map[gfFact]bool{}, vars: map[string]bool{}, initOnly: map[string]bool{}, accessors: map[string]bool{},
+	return &gfFacts{facts: map[gfFact]bool{}, vars: map[string]bool{}, initOnly: map[string]bool{}, accessors: map[string]bool{}, bindings: map[string]bool{}, seenArgCalls: map[string]bool{},
 		seenCalls: map[string]bool{}, seenAsg: map[string]bool{}, seenLits: map[string]bool{}, seenFuncs: map[string]bool{}}
 }
 
 // the analysis of one loaded configuration
+//
+// ORIGINS.  The origin of an expression is a set of variables, each either a package-level variable or a
+// parameter / receiver of a function of the module (or of a function literal): what the value may point
+// into.  Local variables carry the origins of everything ever assigned to them (flow-insensitive); a
+// parameter additionally carries, context-INsensitively, the package-level variables that any call site
+// anywhere in the module (initialisation code included) passes for it (`bind`), transitively.  The result
+// of a call of a function of the module is summarised per result (`ret`) as package-level variables and
+// own parameters, and instantiated with the actual arguments at each call site (context-sensitive).
+type gfSet map[*types.Var]bool
+
+type gfDecl struct {
+	p  *gfPkg
+	fd *ast.FuncDecl
+}
+
+type gfParam struct {
+	fn  *types.Func // nil: parameter of a function literal
+	idx int         // -1: the receiver
+}
+
 type gfWorld struct {
 	l        *gfLoader
 	pkgs     []*gfPkg
-	accessor map[*types.Func]*types.Var
-	alias    map[*types.Var]*types.Var // local variable → the package-level variable it may point into
+	decl     map[*types.Func]*gfDecl // the functions and methods declared in the module
+	param    map[*types.Var]gfParam  // their parameters and receivers, and those of function literals
+	alias    map[*types.Var]gfSet    // local variable or parameter → origins of what was stored in (or through) it
+	bind     map[*types.Var]gfSet    // parameter → package-level variables passed for it somewhere
+	ret      map[*types.Func][]gfSet // function of the module → origins of each result
+	impl     map[*types.Func][]*types.Func
 	initOnly map[*types.Func]bool
+	changed  bool
 	out      *gfFacts
 }
 
@@ -326,7 +371,7 @@ func gfMayAlias(t types.Type, depth int) bool {
 		}
 		return false
 	case *types.Tuple:
-		return false // multi-result calls are not followed
+		return false
 	}
 	return true // pointers, slices, maps, channels, functions, interfaces, type parameters
 }
@@ -338,24 +383,188 @@ func gfOrigin(f *types.Func) *types.Func {
 	return f.Origin()
 }
 
-// root is the package-level variable an expression is rooted at, or nil
-func (w *gfWorld) root(p *gfPkg, e ast.Expr) *types.Var {
+func (w *gfWorld) addAll(m map[*types.Var]gfSet, key *types.Var, src gfSet) {
+	if len(src) == 0 || key == nil {
+		return
+	}
+	dst := m[key]
+	if dst == nil {
+		dst = gfSet{}
+		m[key] = dst
+	}
+	for v := range src {
+		if !dst[v] && v != key {
+			dst[v] = true
+			w.changed = true
+		}
+	}
+}
+
+func gfUnion(a, b gfSet) gfSet {
+	if len(b) == 0 {
+		return a
+	}
+	if a == nil {
+		a = gfSet{}
+	}
+	for v := range b {
+		a[v] = true
+	}
+	return a
+}
+
+// a call, resolved
+type gfCall struct {
+	fn      *types.Func  // the function or method called (nil: builtin, conversion, literal or dynamic)
+	lit     *ast.FuncLit // a function literal called on the spot
+	builtin string
+	conv    bool
+	recv    ast.Expr   // the receiver expression of a method call (for a method expression: the first argument)
+	mexpr   bool       // a method expression call T.M(recv, args…)
+	args    []ast.Expr // the other arguments
+}
+
+func (w *gfWorld) resolve(p *gfPkg, call *ast.CallExpr) gfCall {
+	info := p.info
+	fun := gfUnparen(call.Fun)
+	if tv, ok := info.Types[fun]; ok && tv.IsType() {
+		return gfCall{conv: true, args: call.Args}
+	}
+	switch f := fun.(type) {
+	case *ast.FuncLit:
+		return gfCall{lit: f, args: call.Args}
+	case *ast.Ident:
+		switch obj := info.Uses[f].(type) {
+		case *types.Builtin:
+			return gfCall{builtin: obj.Name(), args: call.Args}
+		case *types.Func:
+			return gfCall{fn: gfOrigin(obj), args: call.Args}
+		}
+	case *ast.SelectorExpr:
+		if sel := info.Selections[f]; sel != nil {
+			m, _ := sel.Obj().(*types.Func)
+			switch sel.Kind() {
+			case types.MethodVal:
+				return gfCall{fn: gfOrigin(m), recv: f.X, args: call.Args}
+			case types.MethodExpr:
+				if len(call.Args) > 0 {
+					return gfCall{fn: gfOrigin(m), recv: call.Args[0], args: call.Args[1:], mexpr: true}
+				}
+			}
+			return gfCall{args: call.Args} // a function-typed field
+		}
+		if fn, ok := info.Uses[f.Sel].(*types.Func); ok { // pkg.Func(…)
+			return gfCall{fn: gfOrigin(fn), args: call.Args}
+		}
+	}
+	return gfCall{args: call.Args} // dynamic
+}
+
+// has the module the body of fn?
+func (w *gfWorld) hasBody(fn *types.Func) bool {
+	d := w.decl[fn]
+	return d != nil && d.fd.Body != nil
+}
+
+// the actual argument expressions for parameter idx of the callee (-1: the receiver)
+func gfActuals(c gfCall, sig *types.Signature, idx int) []ast.Expr {
+	if idx < 0 {
+		if c.recv != nil {
+			return []ast.Expr{c.recv}
+		}
+		return nil
+	}
+	n := sig.Params().Len()
+	if sig.Variadic() && idx == n-1 {
+		if idx < len(c.args) {
+			return c.args[idx:]
+		}
+		return nil
+	}
+	if idx < len(c.args) {
+		return c.args[idx : idx+1]
+	}
+	return nil
+}
+
+// origins of result k of a call
+func (w *gfWorld) callOrigins(p *gfPkg, call *ast.CallExpr, k int) gfSet {
+	t := p.info.TypeOf(call)
+	if tup, ok := t.(*types.Tuple); ok {
+		if k >= tup.Len() {
+			return nil
+		}
+		t = tup.At(k).Type()
+	} else if k != 0 {
+		return nil
+	}
+	c := w.resolve(p, call)
+	if c.conv {
+		if len(c.args) == 1 {
+			return w.origins(p, c.args[0])
+		}
+		return nil
+	}
+	if !gfMayAlias(t, 0) {
+		return nil
+	}
+	if c.builtin == "append" && len(c.args) > 0 {
+		return w.origins(p, c.args[0])
+	}
+	if c.fn != nil && w.hasBody(c.fn) {
+		rs := w.ret[c.fn]
+		if k >= len(rs) {
+			return nil
+		}
+		sig := c.fn.Type().(*types.Signature)
+		var out gfSet
+		for o := range rs[k] {
+			if pi, isParam := w.param[o]; isParam {
+				if pi.fn == c.fn {
+					for _, a := range gfActuals(c, sig, pi.idx) {
+						out = gfUnion(out, w.origins(p, a))
+					}
+				}
+				continue
+			}
+			out = gfUnion(out, gfSet{o: true})
+		}
+		return out
+	}
+	if c.fn != nil && c.recv != nil {
+		// a method whose body the module does not have (other module, interface, assembly): it may
+		// return a pointer into its receiver.  (Its other arguments are NOT followed.)
+		return w.origins(p, c.recv)
+	}
+	return nil
+}
+
+// origins of an expression: package-level variables and parameters it may point into
+func (w *gfWorld) origins(p *gfPkg, e ast.Expr) gfSet {
 	info := p.info
 	for {
 		switch x := e.(type) {
 		case *ast.Ident:
 			obj := info.ObjectOf(x)
 			if v := gfPkgVar(obj); v != nil {
-				return v
+				return gfSet{v: true}
 			}
-			if lv, ok := obj.(*types.Var); ok {
-				return w.alias[lv] // a local variable that was assigned something rooted at a package-level variable
+			lv, ok := obj.(*types.Var)
+			if !ok {
+				return nil
 			}
-			return nil
+			var out gfSet
+			if _, isParam := w.param[lv]; isParam {
+				out = gfSet{lv: true}
+			}
+			return gfUnion(out, w.alias[lv])
 		case *ast.SelectorExpr:
 			if id, ok := x.X.(*ast.Ident); ok {
 				if _, isPkg := info.Uses[id].(*types.PkgName); isPkg {
-					return gfPkgVar(info.Uses[x.Sel]) // qualified identifier
+					if v := gfPkgVar(info.Uses[x.Sel]); v != nil { // qualified identifier
+						return gfSet{v: true}
+					}
+					return nil
 				}
 			}
 			e = x.X
@@ -376,59 +585,52 @@ func (w *gfWorld) root(p *gfPkg, e ast.Expr) *types.Var {
 				return nil
 			}
 			e = x.X
+		case *ast.CompositeLit:
+			var out gfSet
+			for _, el := range x.Elts {
+				if kv, ok := el.(*ast.KeyValueExpr); ok {
+					el = kv.Value
+				}
+				if gfMayAlias(info.TypeOf(el), 0) {
+					out = gfUnion(out, w.origins(p, el))
+				}
+			}
+			return out
 		case *ast.CallExpr:
-			fun := gfUnparen(x.Fun)
-			if tv, ok := info.Types[fun]; ok && tv.IsType() { // conversion
-				if len(x.Args) != 1 {
-					return nil
-				}
-				e = x.Args[0]
-				continue
-			}
-			if !gfMayAlias(info.TypeOf(x), 0) {
-				return nil
-			}
-			switch f := fun.(type) {
-			case *ast.Ident:
-				switch obj := info.Uses[f].(type) {
-				case *types.Builtin:
-					if obj.Name() == "append" && len(x.Args) > 0 {
-						e = x.Args[0]
-						continue
-					}
-				case *types.Func:
-					return w.accessor[gfOrigin(obj)]
-				}
-				return nil
-			case *ast.SelectorExpr:
-				if sel := info.Selections[f]; sel != nil {
-					m, _ := sel.Obj().(*types.Func)
-					if v := w.accessor[gfOrigin(m)]; v != nil {
-						return v
-					}
-					switch sel.Kind() {
-					case types.MethodVal:
-						e = f.X // a method may return a pointer into its receiver
-						continue
-					case types.MethodExpr:
-						if len(x.Args) > 0 {
-							e = x.Args[0]
-							continue
-						}
-					}
-					return nil
-				}
-				if fn, ok := info.Uses[f.Sel].(*types.Func); ok { // pkg.Func(…)
-					return w.accessor[gfOrigin(fn)]
-				}
-				return nil
-			}
-			return nil
+			return w.callOrigins(p, x, 0)
 		default:
 			return nil
 		}
 	}
 }
+
+// expand origins to package-level variables: a parameter stands for everything bound to it
+func (w *gfWorld) expand(os gfSet) []*types.Var {
+	seen := gfSet{}
+	for o := range os {
+		if _, isParam := w.param[o]; isParam {
+			for v := range w.bind[o] {
+				seen[v] = true
+			}
+		} else {
+			seen[o] = true
+		}
+	}
+	out := make([]*types.Var, 0, len(seen))
+	for v := range seen {
+		out = append(out, v)
+	}
+	sort.Slice(out, func(i, j int) bool {
+		if out[i].Pkg().Path() != out[j].Pkg().Path() {
+			return out[i].Pkg().Path() < out[j].Pkg().Path()
+		}
+		return out[i].Name() < out[j].Name()
+	})
+	return out
+}
+
+// roots: the package-level variables an expression may be rooted at
+func (w *gfWorld) roots(p *gfPkg, e ast.Expr) []*types.Var { return w.expand(w.origins(p, e)) }
 
 func (w *gfWorld) where(pos token.Pos) string {
 	p := w.l.fset.Position(pos)
@@ -458,94 +660,30 @@ func (w *gfWorld) varName(p *gfPkg, v *types.Var) string {
 	return w.relOf(v.Pkg()) + "." + v.Name()
 }
 
-// accessors: functions and methods with one result, every return statement of which returns an
-// expression rooted at a package-level variable (to a fixpoint, so accessors of accessors count)
-func (w *gfWorld) findAccessors() {
-	for changed := true; changed; {
-		changed = w.findAliases()
-		for _, p := range w.pkgs {
-			for _, f := range p.files {
-				for _, d := range f.Decls {
-					fd, ok := d.(*ast.FuncDecl)
-					if !ok || fd.Body == nil || fd.Type.Results == nil || fd.Type.Results.NumFields() != 1 {
-						continue
-					}
-					fn, _ := p.info.Defs[fd.Name].(*types.Func)
-					if fn == nil || w.accessor[fn] != nil {
-						continue
-					}
-					var first *types.Var
-					all, any := true, false
-					ast.Inspect(fd.Body, func(n ast.Node) bool {
-						switch x := n.(type) {
-						case *ast.FuncLit:
-							return false
-						case *ast.ReturnStmt:
-							any = true
-							var v *types.Var
-							if len(x.Results) == 1 {
-								v = w.root(p, x.Results[0])
-							}
-							if v == nil {
-								all = false
-							} else if first == nil {
-								first = v
-							}
-						}
-						return true
-					})
-					if any && all && first != nil {
-						w.accessor[fn] = first
-						w.out.accessors[p.rel+"."+gfFuncName(fd)+"\x00"+w.varName(p, first)] = true
-						changed = true
-					}
-				}
-			}
-		}
-	}
-}
-
-// local aliases (flow-insensitive, one pass; the caller iterates): a local variable of a type that can
-// share memory, some assignment / definition / range clause of which takes its value from an expression
-// rooted at a package-level variable, is from then on treated as rooted there (`p := one; p.SetInt64(0)`,
-// `t := table[:]; t[0] = 1`, `for _, e := range ptrTable { e.x = 1 }`).  Parameters are NOT tracked.
-func (w *gfWorld) findAliases() bool {
-	changed := false
+// declarations, parameters
+func (w *gfWorld) collectDecls() {
 	for _, p := range w.pkgs {
-		bind := func(lhs ast.Expr, v *types.Var) {
-			id, ok := gfUnparen(lhs).(*ast.Ident)
-			if !ok || v == nil {
-				return
-			}
-			lv, ok := p.info.ObjectOf(id).(*types.Var)
-			if !ok || lv.IsField() || gfPkgVar(lv) != nil || w.alias[lv] != nil || !gfMayAlias(lv.Type(), 0) {
-				return
-			}
-			w.alias[lv] = v
-			changed = true
-		}
 		for _, f := range p.files {
 			ast.Inspect(f, func(n ast.Node) bool {
 				switch x := n.(type) {
-				case *ast.AssignStmt:
-					if (x.Tok == token.DEFINE || x.Tok == token.ASSIGN) && len(x.Lhs) == len(x.Rhs) {
-						for i := range x.Lhs {
-							bind(x.Lhs[i], w.root(p, x.Rhs[i]))
-						}
+				case *ast.FuncDecl:
+					fn, _ := p.info.Defs[x.Name].(*types.Func)
+					if fn == nil {
+						return true
 					}
-				case *ast.ValueSpec:
-					if len(x.Names) == len(x.Values) {
-						for i := range x.Names {
-							bind(x.Names[i], w.root(p, x.Values[i]))
-						}
+					w.decl[fn] = &gfDecl{p, x}
+					sig := fn.Type().(*types.Signature)
+					if r := sig.Recv(); r != nil {
+						w.param[r] = gfParam{fn, -1}
 					}
-				case *ast.RangeStmt:
-					if v := w.root(p, x.X); v != nil {
-						if x.Key != nil {
-							bind(x.Key, v)
-						}
-						if x.Value != nil {
-							bind(x.Value, v)
+					for i := 0; i < sig.Params().Len(); i++ {
+						w.param[sig.Params().At(i)] = gfParam{fn, i}
+					}
+					w.ret[fn] = make([]gfSet, sig.Results().Len())
+				case *ast.FuncLit:
+					if sig, ok := p.info.TypeOf(x).(*types.Signature); ok {
+						for i := 0; i < sig.Params().Len(); i++ {
+							w.param[sig.Params().At(i)] = gfParam{nil, i}
 						}
 					}
 				}
@@ -553,7 +691,303 @@ func (w *gfWorld) findAliases() bool {
 			})
 		}
 	}
-	return changed
+}
+
+// the local variable or parameter at the base of an assignment target that is not a plain variable
+// (`p.f`, `p[i]`, `*p`, `p.f[i].g` → p); nil for package-level variables and calls
+func (w *gfWorld) baseLocal(p *gfPkg, e ast.Expr) *types.Var {
+	for {
+		switch x := e.(type) {
+		case *ast.Ident:
+			lv, _ := p.info.ObjectOf(x).(*types.Var)
+			if lv == nil || gfPkgVar(lv) != nil {
+				return nil
+			}
+			return lv
+		case *ast.SelectorExpr:
+			if id, ok := x.X.(*ast.Ident); ok {
+				if _, isPkg := p.info.Uses[id].(*types.PkgName); isPkg {
+					return nil
+				}
+			}
+			e = x.X
+		case *ast.IndexExpr:
+			e = x.X
+		case *ast.StarExpr:
+			e = x.X
+		case *ast.ParenExpr:
+			e = x.X
+		case *ast.SliceExpr:
+			e = x.X
+		default:
+			return nil
+		}
+	}
+}
+
+// the methods of the module (with a body) that a call of the interface method im may dispatch to
+func (w *gfWorld) implementers(im *types.Func) []*types.Func {
+	if ms, ok := w.impl[im]; ok {
+		return ms
+	}
+	var ms []*types.Func
+	if sig, ok := im.Type().(*types.Signature); ok && sig.Recv() != nil {
+		if iface, ok := sig.Recv().Type().Underlying().(*types.Interface); ok {
+			for fn := range w.decl {
+				fs := fn.Type().(*types.Signature)
+				if fs.Recv() == nil || fn.Name() != im.Name() || !w.hasBody(fn) {
+					continue
+				}
+				rt := fs.Recv().Type()
+				if types.Implements(rt, iface) || types.Implements(types.NewPointer(rt), iface) {
+					ms = append(ms, fn)
+				}
+			}
+		}
+	}
+	sort.Slice(ms, func(i, j int) bool { return ms[i].FullName() < ms[j].FullName() })
+	w.impl[im] = ms
+	return ms
+}
+
+// bindParam: the parameter pv of a callee receives a value with these origins
+func (w *gfWorld) bindParam(pv *types.Var, os gfSet) {
+	if pv == nil || len(os) == 0 || !gfMayAlias(pv.Type(), 0) {
+		return
+	}
+	for o := range os {
+		if _, isParam := w.param[o]; isParam {
+			w.addAll(w.bind, pv, w.bind[o])
+		} else {
+			w.addAll(w.bind, pv, gfSet{o: true})
+		}
+	}
+}
+
+// one flow-insensitive pass over a region of code (the body of fn, or a package-level initialiser when
+// fn == nil): local aliases, stores through locals, parameter bindings at call sites, result summaries
+func (w *gfWorld) flow(p *gfPkg, fn *types.Func, root ast.Node) {
+	info := p.info
+	assign := func(lhs ast.Expr, os gfSet, rhsType types.Type) {
+		if len(os) == 0 {
+			return
+		}
+		if id, ok := gfUnparen(lhs).(*ast.Ident); ok {
+			lv, _ := info.ObjectOf(id).(*types.Var)
+			if lv != nil && gfPkgVar(lv) == nil && gfMayAlias(lv.Type(), 0) {
+				w.addAll(w.alias, lv, os)
+			}
+			return
+		}
+		// a store THROUGH a local variable or parameter: what it points to now holds these origins too
+		if base := w.baseLocal(p, lhs); base != nil && gfMayAlias(rhsType, 0) {
+			w.addAll(w.alias, base, os)
+		}
+	}
+	depth := 0
+	var stack []ast.Node
+	ast.Inspect(root, func(n ast.Node) bool {
+		if n == nil {
+			if _, ok := stack[len(stack)-1].(*ast.FuncLit); ok {
+				depth--
+			}
+			stack = stack[:len(stack)-1]
+			return true
+		}
+		stack = append(stack, n)
+		switch x := n.(type) {
+		case *ast.FuncLit:
+			depth++
+		case *ast.AssignStmt:
+			if x.Tok != token.DEFINE && x.Tok != token.ASSIGN {
+				break
+			}
+			if len(x.Lhs) == len(x.Rhs) {
+				for i := range x.Lhs {
+					if t := info.TypeOf(x.Rhs[i]); gfMayAlias(t, 0) {
+						assign(x.Lhs[i], w.origins(p, x.Rhs[i]), t)
+					}
+				}
+			} else if call, ok := gfUnparen(x.Rhs[0]).(*ast.CallExpr); ok && len(x.Rhs) == 1 {
+				if tup, ok := info.TypeOf(call).(*types.Tuple); ok {
+					for k := range x.Lhs {
+						if k < tup.Len() && gfMayAlias(tup.At(k).Type(), 0) {
+							assign(x.Lhs[k], w.callOrigins(p, call, k), tup.At(k).Type())
+						}
+					}
+				}
+			}
+		case *ast.ValueSpec:
+			if len(x.Names) == len(x.Values) {
+				for i := range x.Names {
+					if t := info.TypeOf(x.Values[i]); gfMayAlias(t, 0) {
+						assign(x.Names[i], w.origins(p, x.Values[i]), t)
+					}
+				}
+			} else if len(x.Values) == 1 {
+				if call, ok := gfUnparen(x.Values[0]).(*ast.CallExpr); ok {
+					if tup, ok := info.TypeOf(call).(*types.Tuple); ok {
+						for k := range x.Names {
+							if k < tup.Len() && gfMayAlias(tup.At(k).Type(), 0) {
+								assign(x.Names[k], w.callOrigins(p, call, k), tup.At(k).Type())
+							}
+						}
+					}
+				}
+			}
+		case *ast.RangeStmt:
+			if os := w.origins(p, x.X); len(os) > 0 {
+				for _, e := range []ast.Expr{x.Key, x.Value} {
+					if e != nil {
+						assign(e, os, info.TypeOf(e))
+					}
+				}
+			}
+		case *ast.SelectorExpr:
+			// a method of the module selected on something (called or not): its receiver is bound
+			if sel := info.Selections[x]; sel != nil && sel.Kind() == types.MethodVal {
+				if m, _ := sel.Obj().(*types.Func); m != nil && w.hasBody(gfOrigin(m)) {
+					w.bindParam(gfOrigin(m).Type().(*types.Signature).Recv(), w.origins(p, x.X))
+				}
+			}
+		case *ast.CallExpr:
+			c := w.resolve(p, x)
+			var sigs []*types.Signature
+			switch {
+			case c.lit != nil:
+				if sig, ok := info.TypeOf(c.lit).(*types.Signature); ok {
+					sigs = append(sigs, sig)
+				}
+			case c.fn != nil && w.hasBody(c.fn):
+				sig := c.fn.Type().(*types.Signature)
+				sigs = append(sigs, sig)
+				if c.mexpr { // (a method selected the ordinary way has its receiver bound at the selector)
+					w.bindParam(sig.Recv(), w.origins(p, c.recv))
+				}
+			case c.fn != nil && c.recv != nil:
+				// an interface method: every method of the module that may be the one called
+				for _, m := range w.implementers(c.fn) {
+					sig := m.Type().(*types.Signature)
+					sigs = append(sigs, sig)
+					w.bindParam(sig.Recv(), w.origins(p, c.recv))
+				}
+			}
+			for _, sig := range sigs {
+				n := sig.Params().Len()
+				for i, a := range c.args {
+					j := i
+					if j >= n {
+						if !sig.Variadic() {
+							break
+						}
+						j = n - 1
+					}
+					if gfMayAlias(info.TypeOf(a), 0) {
+						w.bindParam(sig.Params().At(j), w.origins(p, a))
+					}
+				}
+			}
+		case *ast.ReturnStmt:
+			if fn == nil || depth > 0 {
+				break
+			}
+			rs := w.ret[fn]
+			sig := fn.Type().(*types.Signature)
+			add := func(k int, os gfSet) {
+				if k < len(rs) && len(os) > 0 && gfMayAlias(sig.Results().At(k).Type(), 0) {
+					if rs[k] == nil {
+						rs[k] = gfSet{}
+					}
+					for o := range os {
+						if pi, isParam := w.param[o]; isParam && pi.fn != fn {
+							continue // a parameter of an enclosing literal: not expressible
+						}
+						if !rs[k][o] {
+							rs[k][o] = true
+							w.changed = true
+						}
+					}
+				}
+			}
+			switch {
+			case len(x.Results) == 0: // named results
+				for k := 0; k < sig.Results().Len(); k++ {
+					add(k, w.alias[sig.Results().At(k)])
+				}
+			case len(x.Results) == len(rs):
+				for k, r := range x.Results {
+					add(k, w.origins(p, r))
+				}
+			case len(x.Results) == 1: // return f()
+				if call, ok := gfUnparen(x.Results[0]).(*ast.CallExpr); ok {
+					for k := range rs {
+						add(k, w.callOrigins(p, call, k))
+					}
+				}
+			}
+		}
+		return true
+	})
+}
+
+// the fixpoint of flow over all the code of the module (initialisation code included: a helper may be
+// called from both)
+func (w *gfWorld) solve() {
+	w.collectDecls()
+	for iter := 0; ; iter++ {
+		w.changed = false
+		for _, p := range w.pkgs {
+			for _, f := range p.files {
+				for _, d := range f.Decls {
+					switch x := d.(type) {
+					case *ast.FuncDecl:
+						if fn, _ := p.info.Defs[x.Name].(*types.Func); fn != nil && x.Body != nil {
+							w.flow(p, fn, x.Body)
+						}
+					case *ast.GenDecl:
+						if x.Tok == token.VAR {
+							for _, sp := range x.Specs {
+								for _, e := range sp.(*ast.ValueSpec).Values {
+									w.flow(p, nil, e)
+								}
+							}
+						}
+					}
+				}
+			}
+		}
+		if !w.changed {
+			break
+		}
+		if iter > 200 {
+			die("gofacts: the alias analysis does not converge")
+		}
+	}
+	// what is emitted for review: accessors (a result that may be rooted at a package-level variable
+	// directly) and the parameter bindings
+	for fn, d := range w.decl {
+		if rs := w.ret[fn]; len(rs) == 1 {
+			for o := range rs[0] {
+				if _, isParam := w.param[o]; !isParam {
+					w.out.accessors[d.p.rel+"."+gfFuncName(d.fd)+"\x00"+w.varName(d.p, o)] = true
+				}
+			}
+		}
+	}
+	for pv, vs := range w.bind {
+		pi := w.param[pv]
+		if pi.fn == nil {
+			continue
+		}
+		d := w.decl[pi.fn]
+		name := pv.Name()
+		if name == "" || name == "_" {
+			name = fmt.Sprintf("#%d", pi.idx)
+		}
+		for v := range vs {
+			w.out.bindings[d.p.rel+"\x00"+gfFuncName(d.fd)+"\x00"+name+"\x00"+w.varName(d.p, v)] = true
+		}
+	}
 }
 
 func gfFuncName(fd *ast.FuncDecl) string {
@@ -681,46 +1115,102 @@ func (w *gfWorld) findInitOnly(p *gfPkg) {
 
 func (w *gfWorld) add(f gfFact) { w.out.facts[f] = true }
 
-// is e (parentheses removed) a plain local variable?  Assigning to, or taking the address of, a local alias
-// itself does not touch the package-level variable it points into.
+// is the storage designated by e inside a local variable or parameter itself (the variable, a field of a
+// struct value, an element of an array value — no pointer, slice or map on the way)?  Assigning to, or
+// taking the address of, such storage does not touch the package-level variables the variable may point into.
 func (w *gfWorld) bareLocal(p *gfPkg, e ast.Expr) bool {
-	id, ok := gfUnparen(e).(*ast.Ident)
-	return ok && gfPkgVar(p.info.ObjectOf(id)) == nil
+	for {
+		switch x := e.(type) {
+		case *ast.ParenExpr:
+			e = x.X
+		case *ast.Ident:
+			_, isVar := p.info.ObjectOf(x).(*types.Var)
+			return isVar && gfPkgVar(p.info.ObjectOf(x)) == nil
+		case *ast.SelectorExpr:
+			sel := p.info.Selections[x]
+			if sel == nil || sel.Kind() != types.FieldVal || sel.Indirect() {
+				return false
+			}
+			if t := p.info.TypeOf(x.X); t == nil {
+				return false
+			} else if _, isPtr := t.Underlying().(*types.Pointer); isPtr {
+				return false
+			}
+			e = x.X
+		case *ast.IndexExpr:
+			t := p.info.TypeOf(x.X)
+			if t == nil {
+				return false
+			}
+			if _, isArr := t.Underlying().(*types.Array); !isArr {
+				return false
+			}
+			e = x.X
+		default:
+			return false
+		}
+	}
 }
 
 func (w *gfWorld) noteWrite(p *gfPkg, target ast.Expr, at token.Pos, fn string) {
-	if v := w.root(p, target); v != nil {
+	for _, v := range w.roots(p, target) {
 		w.add(gfFact{kind: "write", where: w.where(at), v: w.varName(p, v), third: fn})
 	}
 }
 
 func (w *gfWorld) noteAddr(p *gfPkg, target ast.Expr, at token.Pos, fn string) {
-	if v := w.root(p, target); v != nil {
-		w.add(gfFact{kind: "addr", where: w.where(at), v: w.varName(p, v), third: fn})
+	// only for targets rooted DIRECTLY (not through a parameter) at a package-level variable: inside a
+	// callee the pointer exists already
+	for o := range w.origins(p, target) {
+		if _, isParam := w.param[o]; !isParam {
+			w.add(gfFact{kind: "addr", where: w.where(at), v: w.varName(p, o), third: fn})
+		}
 	}
 }
 
 func (w *gfWorld) noteMethod(p *gfPkg, recv ast.Expr, m *types.Func, at token.Pos) {
 	w.out.seenCalls[w.posKey(at)] = true
-	v := w.root(p, recv)
-	if v == nil || m == nil {
+	if m == nil {
 		return
 	}
-	kind, qual := "value", m.Name()
-	if sig, ok := m.Type().(*types.Signature); ok && sig.Recv() != nil {
-		rt := sig.Recv().Type()
-		if _, isPtr := rt.(*types.Pointer); isPtr {
-			kind = "pointer"
-		} else if types.IsInterface(rt) {
-			kind = "interface"
+	for _, v := range w.roots(p, recv) {
+		kind, qual := "value", m.Name()
+		if sig, ok := m.Type().(*types.Signature); ok && sig.Recv() != nil {
+			rt := sig.Recv().Type()
+			if _, isPtr := rt.(*types.Pointer); isPtr {
+				kind = "pointer"
+			} else if types.IsInterface(rt) {
+				kind = "interface"
+			}
+			qual = "(" + types.TypeString(rt, nil) + ")." + m.Name()
 		}
-		qual = "(" + types.TypeString(rt, nil) + ")." + m.Name()
+		k := "call"
+		if !w.l.inModule(v.Pkg().Path()) {
+			k = "fcall"
+		}
+		w.add(gfFact{kind: k, where: w.where(at), v: w.varName(p, v), third: m.Name(), qual: qual, recv: kind})
 	}
-	k := "call"
-	if !w.l.inModule(v.Pkg().Path()) {
-		k = "fcall"
+}
+
+// an argument (not the receiver) rooted at a package-level variable handed to code the module has no body
+// of: another module, an interface method, an assembly routine, a function value
+func (w *gfWorld) noteForeignArgs(p *gfPkg, call *ast.CallExpr) {
+	c := w.resolve(p, call)
+	if c.conv || c.builtin != "" || c.lit != nil || (c.fn != nil && w.hasBody(c.fn)) {
+		return
 	}
-	w.add(gfFact{kind: k, where: w.where(at), v: w.varName(p, v), third: m.Name(), qual: qual, recv: kind})
+	callee := "(dynamic)"
+	if c.fn != nil {
+		callee = c.fn.FullName()
+	}
+	for i, a := range c.args {
+		if !gfMayAlias(p.info.TypeOf(a), 0) {
+			continue
+		}
+		for _, v := range w.roots(p, a) {
+			w.add(gfFact{kind: "farg", where: w.where(a.Pos()), v: w.varName(p, v), third: fmt.Sprint(i), qual: callee})
+		}
+	}
 }
 
 // walk examines code that may run after initialisation
@@ -774,6 +1264,8 @@ func (w *gfWorld) walk(p *gfPkg, body ast.Node, fn string) {
 				w.noteMethod(p, x.X, m, x.Sel.Pos())
 			}
 		case *ast.CallExpr:
+			w.out.seenArgCalls[w.posKey(x.Pos())] = true
+			w.noteForeignArgs(p, x)
 			switch f := gfUnparen(x.Fun).(type) {
 			case *ast.Ident:
 				if b, ok := info.Uses[f].(*types.Builtin); ok && len(x.Args) > 0 {
@@ -815,7 +1307,7 @@ func (w *gfWorld) analyse() {
 		}
 		w.findInitOnly(p)
 	}
-	w.findAccessors()
+	w.solve()
 	for _, p := range w.pkgs {
 		for _, f := range p.files {
 			for _, d := range f.Decls {
@@ -942,7 +1434,8 @@ func gfRun(fsys fs.FS, osRoot, modPath string) *gfFacts {
 	for _, cfg := range cfgs {
 		l := &gfLoader{fsys: fsys, osRoot: osRoot, modPath: modPath, cfg: cfg, fset: gfFset, std: gfStd(),
 			pkgs: map[string]*gfPkg{}, other: map[string]*types.Package{}, busy: map[string]bool{}, used: map[string]bool{}}
-		w := &gfWorld{l: l, accessor: map[*types.Func]*types.Var{}, alias: map[*types.Var]*types.Var{}, initOnly: map[*types.Func]bool{}, out: out}
+		w := &gfWorld{l: l, decl: map[*types.Func]*gfDecl{}, param: map[*types.Var]gfParam{}, alias: map[*types.Var]gfSet{},
+			bind: map[*types.Var]gfSet{}, ret: map[*types.Func][]gfSet{}, impl: map[*types.Func][]*types.Func{}, initOnly: map[*types.Func]bool{}, out: out}
 		for _, d := range dirs {
 			// a directory all of whose files are excluded in this configuration is skipped
 			if fl, _ := l.parseDir(fsys, d, d); len(fl) == 0 {
@@ -1004,6 +1497,8 @@ func gfSelfTest(fsys fs.FS) (int, *gfFacts, []string) {
 						want[w[0]+" "+where+" "+w[1]] = true
 					case len(w) == 3 && (w[0] == "call" || w[0] == "fcall"):
 						want[w[0]+" "+where+" "+w[1]+" "+w[2]] = true
+					case len(w) == 4 && w[0] == "farg": // farg VAR CALLEE INDEX
+						want[w[0]+" "+where+" "+w[1]+" "+w[2]+" "+w[3]] = true
 					default:
 						return 0, got, []string{"bad marker at " + where + ": " + item}
 					}
@@ -1017,6 +1512,9 @@ func gfSelfTest(fsys fs.FS) (int, *gfFacts, []string) {
 		k := f.kind + " " + f.where + " " + f.v
 		if f.kind == "call" || f.kind == "fcall" {
 			k += " " + f.third
+		}
+		if f.kind == "farg" {
+			k += " " + f.qual + " " + f.third
 		}
 		have[k] = true
 	}
@@ -1043,17 +1541,17 @@ func gfSelfTest(fsys fs.FS) (int, *gfFacts, []string) {
 		}
 	}
 	for _, a := range []string{"fix.getCurve\x00cur", "fix.getN\x00n", "fix.getN2\x00n", "fix.tablePtr\x00table", "fix.tableSlice\x00table",
-		"fix.(holder).Table\x00table", "inner.Get\x00secret"} {
+		"fix.(holder).Table\x00table", "inner.Get\x00secret", "fix.maybeN\x00n"} {
 		if !got.accessors[a] {
 			bad = append(bad, "not classified accessor: "+strings.Replace(a, "\x00", " -> ", 1))
 		}
 	}
 	for a := range got.accessors {
-		if strings.HasPrefix(a, "fix.notAccessor\x00") || strings.HasPrefix(a, "inner.Fresh\x00") {
+		if strings.HasPrefix(a, "fix.counterValue\x00") || strings.HasPrefix(a, "inner.Fresh\x00") || strings.HasPrefix(a, "fix.chain\x00") {
 			bad = append(bad, "wrongly classified accessor: "+strings.Replace(a, "\x00", " -> ", 1))
 		}
 	}
-	if len(want) < 80 || cases < 130 {
+	if len(want) < 110 || cases < 170 {
 		bad = append(bad, fmt.Sprintf("fixture too small: %d planted facts, %d cases", len(want), cases))
 	}
 	if len(got.seenCalls) == 0 || len(got.seenAsg) == 0 || len(got.seenLits) == 0 {
@@ -1139,6 +1637,15 @@ func gfQuads(fs *gfFacts, kind string) []string {
 	return out
 }
 
+// farg facts as (where, variable, callee, argument index)
+func gfArgQuads(fs *gfFacts) []string {
+	var out []string
+	for _, f := range gfSorted(fs, "farg") {
+		out = append(out, fmt.Sprintf("(%q, %q, %q, %q)", f.where, f.v, f.qual, f.third))
+	}
+	return out
+}
+
 func gfList(items []string) string { return "[" + strings.Join(items, ",\n   ") + "]" }
 
 func gfKeys(m map[string]bool) []string {
@@ -1196,11 +1703,18 @@ func genGoFacts() {
 	fmt.Fprintf(&sb, "/-- the same calls as (where, variable, method with its receiver type, kind of receiver: pointer | value | interface) -/\ndef packageLevelMethodCallsTyped : List (String × String × String × String) :=\n  %s\n\n", gfList(gfQuads(fs, "call")))
 	fmt.Fprintf(&sb, "/-- method calls outside initialisation on package-level variables of OTHER modules (standard library, dependencies), same format -/\ndef foreignPackageLevelMethodCalls : List (String × String × String × String) :=\n  %s\n\n", gfList(gfQuads(fs, "fcall")))
 	fmt.Fprintf(&sb, "/-- (where, variable, function): places outside initialisation where the address of (an element of) a package-level variable is taken, or an array one is sliced: a pointer escapes the syntactic argument -/\ndef packageLevelAddrTaken : List (String × String × String) :=\n  %s\n\n", gfList(gfTriples(fs, "addr")))
+	fmt.Fprintf(&sb, "/-- (where, variable, callee, argument index — receivers not counted): arguments outside initialisation, rooted at a package-level variable and of a type that can share memory, handed to code the library has no Go body of (another module, an interface method, an assembly routine, \"(dynamic)\" = a function value).  To be checked against a list of callees known not to write that argument. -/\ndef packageLevelArgsToForeign : List (String × String × String × String) :=\n  %s\n\n", gfList(gfArgQuads(fs)))
+	var binds []string
+	for _, k := range gfKeys(fs.bindings) {
+		f := strings.Split(k, "\x00")
+		binds = append(binds, fmt.Sprintf("(%q, %q, %q, %q)", f[0], f[1], f[2], f[3]))
+	}
+	fmt.Fprintf(&sb, "/-- (package, function, parameter, variable): some call site (initialisation included) passes something rooted at the package-level variable for the parameter or receiver, directly or through other functions; writes through the parameter are reported in the lists above under the variable's name -/\ndef packageLevelParamAliases : List (String × String × String × String) :=\n  %s\n\n", gfList(binds))
 	fmt.Fprintf(&sb, "/-- (package, function): functions other than init classified as initialisation-only (not examined) -/\ndef initOnlyFunctions : List (String × String) :=\n  %s\n\n", gfList(pair(gfKeys(fs.initOnly), ".")))
 	fmt.Fprintf(&sb, "/-- (package, function, variable): accessors — a call of the function is treated as the variable -/\ndef accessorFunctions : List (String × String × String) :=\n  %s\n\n", gfList(accs))
 	fmt.Fprintf(&sb, "/-- build configurations type-checked (facts are united) -/\ndef buildConfigs : List String := [%s]\n\n", strings.Join(cfgs, ", "))
-	fmt.Fprintf(&sb, "/-- what the extractor examined in non-initialisation code of the library -/\ndef functionsWalked : Nat := %d\ndef methodCallsSeenTotal : Nat := %d\ndef assignmentsSeenTotal : Nat := %d\ndef funcLitsSeen : Nat := %d\n\n",
-		len(fs.seenFuncs), len(fs.seenCalls), len(fs.seenAsg), len(fs.seenLits))
+	fmt.Fprintf(&sb, "/-- what the extractor examined in non-initialisation code of the library -/\ndef functionsWalked : Nat := %d\ndef methodCallsSeenTotal : Nat := %d\ndef assignmentsSeenTotal : Nat := %d\ndef funcLitsSeen : Nat := %d\ndef callsSeenTotal : Nat := %d\n\n",
+		len(fs.seenFuncs), len(fs.seenCalls), len(fs.seenAsg), len(fs.seenLits), len(fs.seenArgCalls))
 	sb.WriteString("/-! The self-test: before emitting, the same extractor ran on the embedded fixture\n" +
 		"    /verif/go/cmd/translate/testdata/gofacts_fixture; this file exists only because every planted\n" +
 		"    fact was reported and nothing else was. -/\n\n")
@@ -1208,6 +1722,7 @@ func genGoFacts() {
 	fmt.Fprintf(&sb, "/-- what the extractor reported on the fixture (same formats) -/\ndef selfTestWrites : List (String × String × String) :=\n  %s\n\n", gfList(gfTriples(fix, "write")))
 	fmt.Fprintf(&sb, "def selfTestMethodCalls : List (String × String × String) :=\n  %s\n\n", gfList(gfTriples(fix, "call")))
 	fmt.Fprintf(&sb, "def selfTestAddrTaken : List (String × String × String) :=\n  %s\n\n", gfList(gfTriples(fix, "addr")))
+	fmt.Fprintf(&sb, "def selfTestArgsToForeign : List (String × String × String × String) :=\n  %s\n\n", gfList(gfArgQuads(fix)))
 	fmt.Fprintf(&sb, "def selfTestFuncLitsSeen : Nat := %d\n\n", len(fix.seenLits))
 	sb.WriteString("end SMGo.Gen.GoFacts\n")
 	writeIfChanged("GoFacts.lean", []byte(sb.String()))
